@@ -254,7 +254,7 @@ class GroupedResidualLFQ(Module):
 
     def get_output_from_indices(self, indices):
         outputs = tuple(rvq.get_output_from_indices(chunk_indices) for rvq, chunk_indices in zip(self.rvqs, indices))
-        return torch.cat(outputs, dim = self.split_dim)
+        return torch.cat(outputs, dim = -1)
 
     def forward(
         self,
